@@ -263,7 +263,7 @@ void exec_stream(const J& plan) {
   // no state between calls: the same windows decoded again, all at ONE address (a client with a fixed receive buffer), first in the
   // order they were seen, then by increasing size - whatever an earlier call may have remembered about "this buffer" is stale by then
   {
-    static uint8_t* fixed = (uint8_t*)malloc(4096 + 16);
+    std::vector<uint8_t> fixed_store(4096 + 16); uint8_t* fixed = fixed_store.data();   // one address for the whole pass; local, because stream runs may be tasks of a W4 plan
     std::vector<size_t> order; for (size_t i = 0; i < X.samples.size(); i++) order.push_back(i);
     for (int pass = 0; pass < 2 && !failed(); pass++) {
       if (pass == 1) std::stable_sort(order.begin(), order.end(), [&](size_t a, size_t b) { return X.samples[a].bytes.size() < X.samples[b].bytes.size(); });
